@@ -54,8 +54,9 @@ def compute_domains_max_eq(domains: NDArray, parameters: NDArray) -> int:
     candidates_nb = 0
     candidate_idx = -1
     for i in range(len(x)):
-        if x[i, MAX] >= y[MAX]:
+        if x[i, MAX] > y[MAX]:
             x[i, MAX] = y[MAX]
+        if x[i, MAX] >= y[MIN]:  # x_i can still be the maximum
             candidate_idx = i
             candidates_nb += 1
     if candidates_nb == 1:
